@@ -35,7 +35,10 @@ def canon(v, depth=0):
         return ['callable', v.__name__]
     mod = type(v).__module__
     if mod == 'pk.m' or mod.startswith(('celery', 'fastmcp', 'langchain_core')):
-        d = getattr(v, '__dict__', {})
+        try:
+            d = vars(v)
+        except TypeError:
+            d = {}
         return ['obj', type(v).__name__, canon({k: x for k, x in d.items() if not k.startswith('__')}, depth + 1)]
     return ['other', type(v).__name__]
 
